@@ -173,7 +173,14 @@ def run_C07(ctx, E):
     stage_mc_replay(ctx, E, "eligible", "C07_MC", "C07_MC_%s.cfg" % ctx.tier)
     stage_record_trace(ctx, E, "opt", "C07_Trace", "C07_Trace.cfg", heap="8g")
     # the specification beyond the listed properties: GetCodingRegions, random.ProteinSequence, codon-table JSON files
-    stage_record_trace(ctx, E, "extras", "Extras_Trace", "Extras_Trace.cfg", prop="EXTRAS", heap="8g")
+    # (advisory: these calls are not part of property C07, so a mismatch is reported as a NOTE, never as a C07 violation)
+    nbad = len(ctx.bad)
+    stage_record_trace(ctx, E, "extras", "Extras_Trace", "Extras_Trace.cfg", prop="EXTRAS", heap="8g",
+                       env={"POLY_CLI": E.build_cli(ctx.work)})
+    for b in ctx.bad[nbad:]:
+        print("NOTE: behaviour outside the listed properties differs from the specification (Extras_Trace): %s" % b["detail"][:300])
+    ctx.stage_info.append({"stage": "extras (advisory)", "mismatches": len(ctx.bad) - nbad})
+    del ctx.bad[nbad:]
 
 
 def run_C09(ctx, E):
